@@ -6,7 +6,7 @@
    ops:  E f line c..   A f line c..   N f line c..      (expect / always / never)
          C f p=v,p=v                                     (call with named actuals; "C f" = no args)
          M strict|loose|learning      T (tally)      X (clear)
-   constraints c:  p<name>=<value>   t<n>   r<value>
+   constraints c:  p<name>=<value>   t<n>   r<value>   s<g> (with_side_effect: the callback calls mocked function g with p0=1, p1=1)
 
    Output per case: for each op "results/ret/queue" joined by ';' where
      results = <line>:<0|1> ... (line 0 = the test's own line), queue = f:line:ttl:ncalled:ntrig ...
@@ -43,12 +43,19 @@ static void visit(const char *function, int line, int ttl, int ncalled, int ntri
     put("%d:%d:%d:%d:%d ", findex(function), line, ttl, ncalled, ntrig);
 }
 
+static TestReporter *the_reporter;
+static void nested_call(void *data) {
+    int g = (int)(intptr_t)data;
+    (void)mock_(the_reporter, fnames[g], "mockvm.c", 9998, "p0, p1", (intptr_t)1, (intptr_t)1);
+}
+
 static CgreenTest fake = { 0, NULL, "fake", NULL, "test.c", 0 };
 
 int main(void) {
     TestReporter *rep = create_reporter();
     rep->assert_true = rec_assert_true;
     setup_reporting(rep);
+    the_reporter = rep;
     current_test = &fake;
     char *line = NULL; size_t cap = 0;
     while (getline(&line, &cap, stdin) > 0) {
@@ -73,6 +80,7 @@ int main(void) {
                         cs[nc++] = when_(pnames[atoi(tok[i] + 1)], c);
                     } else if (tok[i][0] == 't') cs[nc++] = times_(atoi(tok[i] + 1));
                     else if (tok[i][0] == 'r') cs[nc++] = create_return_value_constraint((intptr_t)atoll(tok[i] + 1));
+                    else if (tok[i][0] == 's') cs[nc++] = create_with_side_effect_constraint(nested_call, (void *)(intptr_t)atoi(tok[i] + 1));
                 }
                 for (int i = nc; i < 12; i++) cs[i] = NULL;
 #define ARGS cs[0], cs[1], cs[2], cs[3], cs[4], cs[5], cs[6], cs[7], cs[8], cs[9], cs[10], (Constraint *)0
